@@ -481,6 +481,11 @@ class Inliner:
                 elif pnm in stored and isinstance(arg, ast.Name) and ret_elems is not None and arg.id in targets \
                         and all(isinstance(e_[targets.index(arg.id)], ast.Name) and e_[targets.index(arg.id)].id == pnm for e_ in ret_elems):
                     rename[pnm] = arg.id  # x = helper(x, ...): the helper re-binds its parameter and hands it back -- the parameter *is* x
+                elif pnm in stored and isinstance(arg, ast.Name) and arg.id not in {rename.get(q) for q in rename} \
+                        and not any(isinstance(bind[q], ast.Name) and bind[q].id == arg.id for q in pnames if q != pnm) \
+                        and self._dead_after_call(fi, st, arg.id):
+                    # the helper re-binds its parameter and the caller never reads its own local again: the parameter *is* that local
+                    rename[pnm] = arg.id
                 else:
                     rename[pnm] = pre + pnm
                     prologue.append(ast.Assign(targets=[ast.Name(id=pre + pnm, ctx=ast.Store())], value=clone(arg), type_comment=None))
@@ -572,6 +577,26 @@ class Inliner:
         self.log.append(f"{fi.short}: inlined helper {g.short}")
         self.edges.add((fi.qualname, g.qualname))
         return out
+
+    def _dead_after_call(self, fi, st: ast.stmt, name: str) -> bool:
+        """the caller's local `name` is not read after statement `st` before being re-bound (CFG liveness on the caller as it stands)"""
+        try:
+            from .cfg import CFG, dead_after
+            if any(isinstance(n, (ast.Global, ast.Nonlocal)) and name in n.names for n in ast.walk(fi.node)):
+                return False
+            for n in ast.walk(fi.node):
+                if n is not fi.node and isinstance(n, (ast.FunctionDef, ast.AsyncFunctionDef, ast.Lambda, ast.ClassDef)):
+                    if any(isinstance(x, ast.Name) and x.id == name for x in ast.walk(n)):
+                        return False
+            cfg = CFG(fi.node)
+            nd = cfg.node_for(st)
+            if nd is None:
+                nd = cfg.stmt_node_containing(st)
+            if nd is None:
+                return False
+            return dead_after(cfg, nd, name)
+        except Exception:  # noqa
+            return False
 
     # -- driver ------------------------------------------------------------------------------------------------------------------
     def run(self):
